@@ -11,4 +11,17 @@ CLAIMS = {
           "sourced from the right queues/counter and only on the Ok edge. Static rules give the for-all-histories part tests cannot; numeric tolerance of duration is not decided.",
   "note": "Trusted: rustc MIR, std Write::write_all contract, externals classification. Not decided: +-1 tick tolerance of duration_secs; "
           "R6 (end time = last sample's pts+delta is the maximum only when pts is monotone) is recorded as a known finding when it applies."},
+ "C13": {
+  "technique": "who-may-call + Result-flow (propagate-only) + dominance on MIR",
+  "text": "Decides for every failure point and every short-write/interrupt schedule at once: the sink is reached only through write_all in one helper whose byte counter does not depend on the sink; "
+          "every Result of a sink write (and of each writer-tree call) is consumed by `?` or returned, and the Break edge never re-enters the writer tree, so the buffers offered to the sink form one fixed "
+          "sequence that stops at the first failure (prefix property, error iff a write failed); the finalized flag is set before the first write and never cleared (nothing is written afterwards). "
+          "Tests can only sample failure points; the rule covers all of them structurally.",
+  "note": "Relies on std's documented write_all contract for Interrupted/short writes. Panic-freedom of the finalize path is the C12 obligation set restricted to the writer tree (known findings shared by key)."},
+ "C17": {
+  "technique": "whole-program effect analysis over the resolved call graph + trait-solver auto-trait query + MIR alpha-equivalence / delegation check",
+  "text": "Decides the structural clauses of C17: no clock/RNG/env/fs/process/thread/atomic/TypeId/static/hash-order effect is reachable from any public muxing entry point (negative fact over all paths); the thread-local log is write-only for muxing; "
+          "the sink type is used only through std::io::Write; Muxer<W>/MuxerBuilder<W>: Send<=W: Send and Sync<=W: Sync for all W (solver query in a parameter environment, non-vacuous), FragmentedMuxer: Send+Sync; "
+          "finish/flush/finish_with_stats/finish_in_place are single pass-through delegations, builder aliases have alpha-equal bodies, codec None yields no audio track.",
+  "note": "Trusted: classification of external callees (lib/mx/externals.py), rustc trait solver. One reasoned exception: Metadata::with_current_time (explicit request for 'now' as input). Not decided: f64 accumulation of encode_* vs explicit timestamps (numeric)."},
 }
